@@ -73,6 +73,10 @@ CLAIMED = {
     "C11": ("Coq step lemmas quantified over the fault argument (fail-closed, absorption, strict logout) + fault grid on the real stack",
             "c11_* theorems: token only from a session record and never expired; a session is entered only through a successful un-faulted read; provider 4xx => unauthenticated in every handler; transient store fault / 5xx within the retry budget is a stutter; logout variants report success only after an answered lookup and an executed delete. Faults (store error, cancellation, 4xx, 5xx, malformed body) are injected at every operation position of every request kind on the real stack (fake clock makes back-offs free) and must agree with the model; the monitor checks the property clauses on the traces.",
             "Trusts as C01; retry budget is the time budget of pkg/retry (pinned 5 s).", "5/C11"),
+    "C18": ("Coq obligations over the regenerated log-site table and the banner-masking model + scan of every log line of the explored runs and of the built binary's start-up output",
+            "c18_sites_public: every logging call site of the current source tree (table regenerated from /repo's Go AST on every run) passes only classified non-secret argument expressions - a new log statement with an unclassified argument breaks the obligation; c18_banner_masked: the masked configuration copy printed at start-up contains none of the configured secrets (c18_banner_uri_refuted documents the pre-fix leak of a password embedded in redis.uri, fixed in /repo). Dynamically: ~135 k log entries (debug level) of session-machine histories, fault sequences, schedules and login / callback cross products are scanned for every token, verifier, cookie value, data key, deployment key, client secret, private JWK and assertion minted in that run (raw / base64 / base64url), and the built binary is started 256 times with every subset of secrets x supply channel x provider and its output scanned.",
+            "PARTIAL: the classification of log-site argument expressions (lib/log_classes.json) and the meaning of the classes (errors interpolate only public text, user input, identifiers, library errors; provider error bodies contain no wonderwall secret) are trusted; third-party logging is covered by the dynamic scan only.",
+            "5/C18"),
 }
 
 ALL = ["C%02d" % i for i in range(1, 21)]
